@@ -932,7 +932,42 @@ def rule_gate(ctx) -> None:
     ctx.floor("C18.GATE", "_ensure_graph_store call sites in public functions", n_sites, 7)
 
 
+def rule_config_values_total(ctx) -> None:
+    """"every GEL edge weight lies within the configured clamp bounds" and "a tick ... removes exactly the edges that fall below
+    the floor" under every configuration the validator accepts: (a) the clamp bounds are finite - an infinite bound is no
+    bound, weights reach inf and the next tick turns inf * factor / inf - inf into NaN, outside every interval; (b) the tick's
+    conversion of the integer half life to float cannot raise (an integer beyond the double range - "never decay" - is accepted
+    by the validator: OverflowError out of the tick leaves edges below the floor in place)."""
+    from ..util import enclosing
+    impl = ctx.func("configs.validate:_validate_config_normalize_impl")
+    cfg = ctx.cfg(impl)
+    errs = [(n, c) for n in cfg.nodes for c in node_calls(n) if call_tail(c) == "_err" and len(c.args) >= 3 and "clamp" in (const_str(c.args[1]) or "") and (const_str(c.args[1]) or "").startswith("graph.update")]
+    ctx.floor("C18.BOUND", "validator messages about graph.update clamp bounds", len(errs), 1)
+    finite = any(any(("inf" in t or "isfinite" in t) for t, pol in cfg.facts(n)) for n, c in errs)
+    ctx.check(finite, "C18.BOUND", f"{impl.qual}/clamp-bounds-finite", impl.loc(errs[0][1]) if errs else impl.loc(), "graph.update.clamp_min / clamp_max are required to be finite",
+              "graph.update.clamp_min / clamp_max are only ordered (min < max, min <= 0 <= max): clamp_max = inf is accepted - no bound at all; with a large step the weight reaches inf and the next "
+              "decay tick makes it NaN, outside every interval")
+    n = 0
+    for fn in ctx.prog.module(GEL).funcs.values():
+        for x in walk_no_defs(fn.node):
+            if isinstance(x, ast.Call) and dotted(x.func) == "float" and x.args and any(isinstance(y, ast.Call) and call_tail(y) == "get" and y.args and const_str(y.args[0]) == "half_life_turns" for y in ast.walk(x.args[0])):
+                n += 1
+                ok = False
+                for st, part in enclosing(ctx.prog, fn, x):
+                    if isinstance(st, ast.Try) and part == "body":
+                        caught = set()
+                        for h in st.handlers:
+                            caught |= {"*"} if h.type is None else {src(e).split(".")[-1] for e in (h.type.elts if isinstance(h.type, ast.Tuple) else [h.type])}
+                        if caught & {"*", "Exception", "BaseException", "OverflowError", "ArithmeticError"}:
+                            ok = True
+                ctx.check(ok, "C18.DECAY", ctx.okey(f"{fn.qual}/half-life-conversion-total"), fn.loc(x), f"`{src(x)[:50]}` is under a handler that covers OverflowError",
+                          f"`{src(x)[:50]}` converts the integer half life without a guard: the validator accepts any integer >= 1, one beyond the double range raises OverflowError out of the tick - no edge "
+                          "decays and edges below the floor stay")
+    ctx.floor("C18.DECAY", "float conversions of graph.decay.half_life_turns in the GEL", n, 1)
+
+
 def run(ctx) -> None:
+    rule_config_values_total(ctx)
     rule_bound(ctx)
     rule_bound_everywhere(ctx)
     rule_decay(ctx)
